@@ -205,7 +205,7 @@ theorem ok_of_row (w : Want) (b : Bed12) (r0 : Blk) (rrest : List Blk)
     (hchrom : optStr b.chrom = w.chrom) (hname : optStr b.name = w.name)
     (hscore : b.score = w.score) (hrgb : b.rgb = w.rgb) (hstrand : b.strand = w.strand)
     (htab1 : '\t' ∉ w.chrom) (htab2 : '\t' ∉ w.name)
-    (hthick : (w.cds = none ∧ b.thickStart = b.thickEnd) ∨
+    (hthick : (w.cds = none ∧ b.thickStart = 0 ∧ b.thickEnd = 0) ∨
               (w.cds = some (b.thickStart + w.off, b.thickEnd + w.off) ∧ r0.1 ≤ b.thickStart ∧
                b.thickStart < b.thickEnd ∧ b.thickEnd ≤ (lastOf r0 rrest).2)) :
     okBed12 w (some b.str) = true := by
@@ -225,7 +225,7 @@ theorem ok_of_row (w : Want) (b : Bed12) (r0 : Blk) (rrest : List Blk)
     · exact ascending_starts r0.1 r0 rrest hg (Nat.le_refl _)
     · rw [hs, he]; omega
     · rw [hsz, hs, he]; exact lastReach_row r0.1 r0 rrest hg (Nat.le_refl _)
-    · rcases hthick with ⟨_, h⟩ | ⟨_, _, h, _⟩ <;> omega
+    · rcases hthick with ⟨_, h, h'⟩ | ⟨_, _, h, _⟩ <;> omega
     · rcases hthick with ⟨_, h⟩ | ⟨_, h1, _, h2⟩
       · exact Or.inl h
       · right; rw [hs, he]; exact ⟨h1, h2⟩
@@ -235,8 +235,8 @@ theorem ok_of_row (w : Want) (b : Bed12) (r0 : Blk) (rrest : List Blk)
     exact zip_blocks r0.1 (r0 :: rrest) (fun x hx => ⟨(hb x hx).1, Nat.le_of_lt (hb x hx).2.1⟩)
   have hcds : (cdsOf (rowOf b ((r0 :: rrest).map (fun x => x.1 - r0.1)))).map (shiftUp w.off) = w.cds := by
     unfold cdsOf rowOf
-    rcases hthick with ⟨h0, h⟩ | ⟨h0, _, h, _⟩
-    · simp only [h, Nat.lt_irrefl, if_false, Option.map_none]; exact h0.symm
+    rcases hthick with ⟨h0, h, h'⟩ | ⟨h0, _, h, _⟩
+    · simp only [h, h', Nat.lt_irrefl, if_false, Option.map_none]; exact h0.symm
     · simp only [h, if_true, Option.map_some, shiftUp]; exact h0.symm
   unfold okBed12
   simp only [hdec, hinv, hblocks, hcds, hex, Bool.true_and, Bool.and_eq_true, decide_eq_true_eq]
